@@ -20,7 +20,11 @@ Inductive cexp :=
 | CSum (e : cexp)                         (* e.sum() *)
 | CIndex (e i : cexp)                     (* e[i] *)
 | CMember (e : cexp) (k : name)           (* e.k *)
-| CGoto (e : cexp).                       (* goto(e) *)
+| CGoto (e : cexp)                        (* goto(e) *)
+| CAppend (e x : cexp)                    (* e.append(x) *)
+| CSet (e i x : cexp)                     (* e.set(i, x) *)
+| CReverse (e : cexp)                     (* e.reverse() *)
+| CMap (m : list (name * cexp)).          (* {k: e, ...} (pairwise different keys) *)
 
 Fixpoint ceval (args : list value) (e : cexp) {struct e} : res value :=
   match e with
@@ -52,6 +56,22 @@ Fixpoint ceval (args : list value) (e : cexp) {struct e} : res value :=
   | CIndex e' i => bind (ceval args e') (fun v => bind (ceval args i) (fun iv => access_list v iv))
   | CMember e' k => bind (ceval args e') (fun v => access_map v k)
   | CGoto e' => bind (ceval args e') (fun v => match v with VInt z => Ok (VMap [(nm_state, VInt z)]) | _ => Err None end)
+  | CAppend e' x =>
+      bind (ceval args e') (fun v => bind (ceval args x) (fun xv =>
+        match v with VList l => Ok (VList (l ++ [xv])) | _ => Err None end))
+  | CSet e' i x =>
+      bind (ceval args e') (fun v => bind (ceval args i) (fun iv => bind (ceval args x) (fun xv =>
+        match v, iv with
+        | VList l, VInt z => bind (m_set z xv l) (fun l' => Ok (VList l'))
+        | _, _ => Err None
+        end)))
+  | CReverse e' => bind (ceval args e') (fun v => match v with VList l => Ok (VList (rev l)) | _ => Err None end)
+  | CMap m =>
+      bind ((fix go (m : list (name * cexp)) : res (list (str * value)) :=
+               match m with
+               | [] => Ok []
+               | (k, x) :: r => bind (ceval args x) (fun v => bind (go r) (fun vs => Ok ((k, v) :: vs)))
+               end) m) (fun es => Ok (VMap es))
   end.
 
 Inductive arg := AV (v : value) | AF (n : nat) (body : cexp).
@@ -77,6 +97,9 @@ Inductive meth :=
 | M_len | M_string | M_trim | M_toLower | M_toUpper | M_contains | M_indexOf | M_split | M_cut
 | M_replace | M_toInt
 | M_get | M_put | M_isAvail | M_list
+| M_fork            (* pseudo: let w = <steps before>; [w.<branch 1>, w.<branch 2>, ..., w, source] *)
+| M_plus            (* pseudo: receiver + argument *)
+| M_observe         (* pseudo: the observer bundle on a map, one triple per key argument *)
 | M_other (n : name).
 
 Definition meth_name (m : meth) : name :=
@@ -96,6 +119,9 @@ Definition meth_name (m : meth) : name :=
   | M_toUpper => nm_toUpper | M_contains => nm_contains | M_indexOf => nm_indexOf | M_split => nm_split
   | M_cut => nm_cut | M_replace => nm_replace | M_toInt => nm_toInt
   | M_get => nm_get | M_put => nm_put | M_isAvail => nm_isAvail | M_list => nm_list
+  | M_fork => [35; 102; 111; 114; 107]%N
+  | M_plus => [43]%N
+  | M_observe => [35; 111; 98; 115; 101; 114; 118; 101]%N
   | M_other n => n
   end.
 
@@ -115,7 +141,7 @@ Definition string_meths : list (meth * Z) :=
 
 Definition map_meths : list (meth * Z) :=
   [(M_accept, 1); (M_map, 1); (M_list, 0); (M_size, 0); (M_isAvail, -1); (M_get, 1); (M_put, 2);
-   (M_combine, 2); (M_eval, 0)].
+   (M_combine, 2); (M_eval, 0); (M_replace, 1)].
 
 Definition scalar_meths : list (meth * Z) := [(M_string, 0)].
 
@@ -128,7 +154,7 @@ Definition unmodelled_table : list (N * list name) :=
   [(5%N, [nm_replaceList; nm_multiUse; nm_iirApply; nm_string; nm_createInterpolation; nm_linearReg;
           nm_binning; nm_binning2d; nm_collectBinning]);
    (3%N, [nm_behind; nm_behindList; nm_toFloat]);
-   (6%N, [nm_replaceMap; nm_string; nm_replace]);
+   (6%N, [nm_replaceMap; nm_string]);
    (7%N, [nm_args; nm_invoke; nm_string])].
 
 (* the table as (type id, name, arity) triples, to be compared with Generated/ValueMethods.v *)
@@ -259,6 +285,7 @@ Definition run_map (e : entries) (m : meth) (args : list arg) : res pv :=
   | M_isAvail, _ => bind (arg_vals args) (fun vs => okV (mm_isAvail e vs))
   | M_get, [a] => with_str a (fun k => okV (mm_get e k))
   | M_put, [k; v] => with_str k (fun k => bind (arg_val v) (fun v => bind (mm_put e k v) (fun r => Ok (PV (VMap r)))))
+  | M_replace, [a] => bind (arg_f1 a) (fun f => bind (mm_replace f e) (fun r => Ok (PV (VMap r))))
   | M_combine, [o; a] =>
       bind (arg_f2 a) (fun f =>
       bind (arg_val o) (fun ov => match ov with
@@ -268,7 +295,38 @@ Definition run_map (e : entries) (m : meth) (args : list arg) : res pv :=
   | _, _ => Unsup
   end.
 
+Definition force (p : pv) : res value :=
+  match p with PV v => Ok v | PS s => bind (collect s) (fun l => Ok (VList l)) end.
+
+Fixpoint arg_strs (args : list arg) : res (list str) :=
+  match args with
+  | [] => Ok []
+  | AV (VStr k) :: r => bind (arg_strs r) (fun ks => Ok (k :: ks))
+  | _ => Unsup
+  end.
+
+(* the pseudo-methods: the + operator with a value, and the observer bundle *)
+Definition run_pseudo (p : pv) (m : meth) (args : list arg) : res pv :=
+  match m, args with
+  | M_plus, [a] =>
+      bind (arg_val a) (fun v => bind (force p) (fun r =>
+        match r, v with
+        | VMap x, VMap y => bind (mm_merge x y) (fun e => Ok (PV (VMap e)))
+        | _, _ => okV (calc op_add r v)
+        end))
+  | M_observe, _ =>
+      match p with
+      | PV (VMap e) => bind (arg_strs args) (fun ks => okV (mm_observe e ks))
+      | _ => Unsup
+      end
+  | _, _ => Unsup
+  end.
+
+Definition is_pseudo (m : meth) : bool :=
+  match m with M_plus | M_observe | M_fork => true | _ => false end.
+
 Definition run_step (p : pv) (m : meth) (args : list arg) : res pv :=
+  if is_pseudo m then run_pseudo p m args else
   let tid := tid_of p in
   match lookup_arity tid m with
   | None => if is_unmodelled tid m then Unsup else Err None          (* method not found *)
@@ -295,10 +353,6 @@ Fixpoint run_steps (p : pv) (steps : list step) : res pv :=
   | (m, args) :: r => bind (run_step p m args) (fun p' => run_steps p' r)
   end.
 
-(* the harness evaluates the returned list *)
-Definition force (p : pv) : res value :=
-  match p with PV v => Ok v | PS s => bind (collect s) (fun l => Ok (VList l)) end.
-
 Inductive src := SrcV (v : value) | SrcStatic (f : name) (args : list value).
 
 
@@ -313,8 +367,33 @@ Definition run_src (s : src) : res pv :=
       end
   end.
 
+(* steps = pre ++ [fork] ++ branch1 ++ [fork] ++ branch2 ...: the first component are the steps
+   before the first fork *)
+Fixpoint split_forks (steps : list step) : list step * list (list step) :=
+  match steps with
+  | [] => ([], [])
+  | (M_fork, _) :: r => let '(b, bs) := split_forks r in ([], b :: bs)
+  | x :: r => let '(b, bs) := split_forks r in (x :: b, bs)
+  end.
+
+Fixpoint run_branches {A} (run : list step -> res A) (bs : list (list step)) : res (list A) :=
+  match bs with
+  | [] => Ok []
+  | b :: r => bind (run b) (fun v => bind (run_branches run r) (fun vs => Ok (v :: vs)))
+  end.
+
+(* let w = source.pre; [w.branch1, w.branch2, ..., w, source]: values do not change when a sibling is
+   extended or modified, so w and the source are observed as they were *)
 Definition run_model (s : src) (steps : list step) : res value :=
-  bind (run_src s) (fun p => bind (run_steps p steps) force).
+  let '(pre, bs) := split_forks steps in
+  match bs with
+  | [] => bind (run_src s) (fun p => bind (run_steps p steps) force)
+  | _ =>
+      bind (run_src s) (fun p0 => bind (force p0) (fun v0 =>
+      bind (bind (run_steps p0 pre) force) (fun w =>
+      bind (run_branches (fun b => bind (run_steps (PV w) b) force) bs) (fun outs =>
+      Ok (VList (outs ++ [w; v0]))))))
+  end.
 
 (* ---------- the pipeline through the documented models (eager, strict) ---------- *)
 
@@ -425,6 +504,12 @@ Definition d_minMax (f : dcb1) (l : list value) : res value :=
         Ok (minmax_map (fst mn) (fst mx) (snd mn) (snd mx) true)))
     end).
 
+Fixpoint keys_nondecreasing (ks : list fl) : bool :=
+  match ks with
+  | [] => true
+  | a :: r => match r with [] => true | b :: _ => negb (fl_ltb b a) && is_finite a && is_finite b && keys_nondecreasing r end
+  end.
+
 Definition spec_list (l : list value) (m : meth) (args : list arg) : res value :=
   match m, args with
   | M_accept, [a] => bind (arg_f1 a) (fun f => lz (d_accept f l))
@@ -472,12 +557,46 @@ Definition spec_list (l : list value) (m : meth) (args : list arg) : res value :
   | M_last, [] => d_last l
   | M_eval, [] => Ok (VList l)
   (* no documented model yet: the implementation model stands in (correspondence only) *)
-  | M_movingWindow, [a] => bind (arg_f1 a) (fun f => eg (m_movingWindow f l))
+  | M_movingWindow, [a] =>
+      bind (arg_f1 a) (fun f =>
+      bind (mw_keys f l) (fun kl =>
+        if keys_nondecreasing (map fst kl)
+        then Ok (VList (d_movingWindow (fun a b => match far_apart a b with Ok false => true | _ => false end) kl))
+        else Unsup))       (* the description does not say what a window is when the keys go down *)
   | M_movingWindowRemove, [a] => bind (arg_f1 a) (fun f => eg (m_movingWindowRemove f l))
   | _, _ => Unsup
   end.
 
-Definition spec_step (v : value) (m : meth) (args : list arg) : res value :=
+(* maps as finite maps (canonical: sorted by key); used for the pipelines that end in the observer bundle *)
+Definition spec_map (e : entries) (m : meth) (args : list arg) : res value :=
+  let c := fm_canon e in
+  match m, args with
+  | M_put, [k; v] =>
+      bind (arg_val k) (fun kv => bind (arg_val v) (fun vv =>
+        match kv with VStr k => bind (fm_put c k vv) (fun r => Ok (VMap r)) | _ => Err None end))
+  | M_plus, [a] =>
+      bind (arg_val a) (fun v => match v with
+                                 | VMap o => bind (fm_merge c (fm_canon o)) (fun r => Ok (VMap r))
+                                 | _ => Err None
+                                 end)
+  | M_replace, [a] =>
+      bind (arg_f1 a) (fun f => bind (f (VMap c)) (fun r =>
+        match r with VMap rep => Ok (VMap (fm_replace c (fm_canon rep))) | _ => Err None end))
+  | M_observe, _ =>
+      bind (arg_strs args) (fun ks =>
+        Ok (VList [VInt (Z.of_nat (length c)); VInt (Z.of_nat (length c)); VList (mm_list c);
+                   VList (map (fun k => VList [VBool (match fm_get k c with Some _ => true | None => false end);
+                                               match fm_get k c with Some x => x | None => VInt (-1) end;
+                                               match fm_get k c with Some _ => VInt (-1) | None => VInt (Z.of_nat (S (length c))) end]) ks);
+                   VStr []]))
+  | _, _ => Unsup
+  end.
+
+Definition spec_step (canon : bool) (v : value) (m : meth) (args : list arg) : res value :=
+  match v, canon || is_pseudo m with
+  | VMap e, true => spec_map e m args
+  | _, _ =>
+  if is_pseudo m then bind (run_pseudo (PV v) m args) force else
   let tid := tid_of (PV v) in
   match lookup_arity tid m with
   | None => if is_unmodelled tid m then Unsup else Err None
@@ -488,18 +607,31 @@ Definition spec_step (v : value) (m : meth) (args : list arg) : res value :=
         | VList l => spec_list l m args
         | _ => bind (run_step (PV v) m args) force     (* strings, maps, scalars: one model *)
         end
+  end
   end.
 
-Fixpoint spec_steps (v : value) (steps : list step) : res value :=
+Fixpoint spec_steps (canon : bool) (v : value) (steps : list step) : res value :=
   match steps with
   | [] => Ok v
-  | (m, args) :: r => bind (spec_step v m args) (fun v' => spec_steps v' r)
+  | (m, args) :: r => bind (spec_step canon v m args) (fun v' => spec_steps canon v' r)
   end.
 
 Definition spec_src (s : src) : res value := bind (run_src s) force.
 
+Definition ends_in_observe (steps : list step) : bool :=
+  match rev steps with (M_observe, _) :: _ => true | _ => false end.
+
 Definition run_spec (s : src) (steps : list step) : res value :=
-  bind (spec_src s) (fun v => spec_steps v steps).
+  let canon := ends_in_observe steps in
+  let '(pre, bs) := split_forks steps in
+  match bs with
+  | [] => bind (spec_src s) (fun v => spec_steps canon v steps)
+  | _ =>
+      bind (spec_src s) (fun v0 =>
+      bind (spec_steps false v0 pre) (fun w =>
+      bind (run_branches (fun b => spec_steps false w b) bs) (fun outs =>
+      Ok (VList (outs ++ [w; v0])))))
+  end.
 
 (* ---------- observations ---------- *)
 
@@ -546,6 +678,15 @@ Definition same_val (unordered : bool) (a b : value) : bool :=
     | _, _ => val_eqb a b
     end
   else val_eqb a b.
+
+(* observer bundle: sizes and keyed answers exactly, the entry list up to order, the text not at all
+   (iteration order is the representation's business, the finite-map model has none) *)
+Definition same_bundle (a b : value) : bool :=
+  match a, b with
+  | VList [s1; n1; VList l1; k1; _], VList [s2; n2; VList l2; k2; VStr _] =>
+      val_eqb s1 s2 && val_eqb n1 n2 && check_perm val_eqb l1 l2 && val_eqb k1 k2
+  | _, _ => false
+  end.
 
 (* id, source, steps, result unordered?, observation *)
 Definition c07_case := (N * src * list step * bool * obs)%type.
@@ -638,7 +779,7 @@ Definition relational_ok (inp : list value) (last : step) (out : value) : bool :
 Definition checker_verdict (s : src) (steps : list step) (out : value) : bool :=
   match split_last steps with
   | Some (ini, last) =>
-      match bind (spec_src s) (fun v => spec_steps v ini) with
+      match (if existsb (fun st => is_pseudo (fst st)) steps then Unsup else bind (spec_src s) (fun v => spec_steps false v ini)) with
       | Ok (VList inp) => relational_ok inp last out
       | _ => true
       end
@@ -649,7 +790,8 @@ Definition checker_verdict (s : src) (steps : list step) (out : value) : bool :=
 Definition c07_is (c : c07_case) : bool :=
   let '(_, s, steps, un, o) := c in
   match run_spec s steps, o with
-  | Ok v, OOk w => same_val un v w && checker_verdict s steps w
+  | Ok v, OOk w => if ends_in_observe steps then same_bundle v w
+                   else same_val un v w && checker_verdict s steps w
   | Ok _, _ => false
   | Err (Some mk), OOk _ => str_eqb mk lazy_mark     (* a lazy stage's callback failed on an item nobody demanded *)
   | Err _, OFail => true
